@@ -74,9 +74,36 @@ package pruner
 // compared under an earlier hold of the lock says nothing about the value found under a later one.
 //@ guards Service.checkpointMu checkpoint rely after.LastPrunedHeight >= before.LastPrunedHeight
 
-//@ func (*Service).loadCheckpoint
+// (JSON decoding of what storeCheckpoint wrote - never the JSON null: assumed)
+//@ func getCheckpoint
 //@   property C14
 //@   trusted
+//@   ensures err == nil ==> result != nil
+
+//@ func newCheckpoint
+//@   property C14
+//@   ensures result != nil && isFresh(result) && result.LastPrunedHeight == lastPruned && len(result.FailedHeaders) == 0
+
+// "The last-pruned checkpoint survives restarts": a checkpoint that replaces the one in memory is written to
+// the datastore by the same call - the one persisted is the one installed, it starts at the store's tail with
+// no failed heights, and a failed write fails the reset.
+//@ func (*Service).resetCheckpoint
+//@   property C14
+//@   requires s != nil
+//@   modifies s
+//@   callpre storeCheckpoint: $arg2 == s.checkpoint && s.checkpoint != nil
+//@   callpre storeCheckpoint: $arg1 == iface(s.ds)
+//@   callpre storeCheckpoint: s.checkpoint.LastPrunedHeight == tail.Height()
+//@   callpre storeCheckpoint: len(s.checkpoint.FailedHeaders) == 0
+//@   ensures err == nil ==> s.checkpoint != nil && isFresh(s.checkpoint)
+//@   ensures s.ds == old(s.ds) && s.hstore == old(s.hstore)
+
+// (loading: a checkpoint already in memory is kept as it is; otherwise the stored one is taken, and only "none
+// stored" leads to a reset - any other read failure is reported and leaves no checkpoint behind)
+//@ func (*Service).loadCheckpoint
+//@   property C14
+//@   requires s != nil
+//@   only pruner.: getCheckpoint resetCheckpoint
 //@   modifies s
 //@   ensures err == nil ==> s.checkpoint != nil
 //@   ensures old(s.checkpoint) != nil ==> s.checkpoint == old(s.checkpoint) && deref(s.checkpoint) == old(deref(s.checkpoint))
